@@ -107,6 +107,8 @@ fn mw(ctx: &Arc<Ctx>, tag: u32) -> Arc<dyn Middleware<St, Act> + Send + Sync> {
 
 pub fn build(ctx: &Arc<Ctx>, ctor: u8, calls: &[u8]) -> Result<Arc<RStore>, StoreError> {
     let mut b = if ctor == 1 { StoreBuilder::new_with_reducer(St::initial(0), red(ctx, 1)) } else { StoreBuilder::new(St::initial(0)) };
+    // the very same instance is handed to every add_middleware(M30) call of a sequence
+    let m30 = mw(ctx, 30);
     for c in calls {
         b = match c {
             0 => b.with_name("alpha".into()),
@@ -125,7 +127,7 @@ pub fn build(ctx: &Arc<Ctx>, ctor: u8, calls: &[u8]) -> Result<Arc<RStore>, Stor
             13 => b.with_policy(BackpressurePolicy::DropLatest),
             14 => b.with_middleware(mw(ctx, 10)),
             15 => b.with_middlewares(vec![mw(ctx, 20), mw(ctx, 21)]),
-            _ => b.add_middleware(mw(ctx, 30)),
+            _ => b.add_middleware(m30.clone()),
         };
     }
     b.build()
